@@ -406,7 +406,9 @@ def _slice_1d(dim_shape, lengths, index):
     else:
         rstart = start  # running start
 
-        istart = bisect.bisect_left(chunk_boundaries, start)
+        # right-side search: with zero-length chunks several boundaries equal
+        # ``start`` and the block holding it lies after all of them
+        istart = bisect.bisect_right(chunk_boundaries, start)
         istop = bisect.bisect_right(chunk_boundaries, stop)
 
         # the bound is not exactly tight; make it tighter?
